@@ -1,4 +1,101 @@
-import FiddleModel.Generated.Tables
+/-
+C12 — generated Python code reproduces the configuration.
+
+Model (`Model/Codegen.lean`): the statement language of an emitted fixture (assignments of
+expressions to variables, `return`), expressions being literals, variables and
+object-creating constructor calls / container displays, with its execution semantics over
+heaps (one new object per evaluated constructor, in evaluation order).
+
+The correspondence run parses the module text the real generators emit (plain `fdl.Config`
+generator and auto_config generator, all settings of the sub-fixture, complexity and history
+options) into this language, executes it with `CProg.run` and compares the resulting heap
+with the input configuration — so naming, inlining and sub-fixture extraction are exercised
+on the real code, while the theorems are about the execution semantics and about one
+generator of the model:
+  * `straightLine` (every object its own variable — the complexity-threshold-0 shape) followed
+    by execution reproduces the configuration *exactly*: same objects at the same indices,
+    hence same callables, arguments, tags and sharing;
+  * executing any program only allocates (never changes an existing object), a constructor
+    expression always yields a new object, a variable always yields the object it was bound to
+    — which is why sharing in the emitted text means sharing in the result and nothing else.
+Not proved (`_partial`): that inlining single-use variables (higher thresholds) and moving
+sub-graphs into sub-fixtures preserve the result; value expressions for leaf types (enum,
+float, complex, bytes, …) are outside the model (the oracle evaluates them on the real code).
+-/
+import FiddleModel.Lemmas.CodegenL
+import FiddleModel.Lemmas.Traverse
+
 namespace Fiddle
-theorem C12_placeholder : True := trivial
+
+/-- Round trip: executing the straight-line program generated for a configuration rebuilds
+    that configuration exactly — every object, at its own index, with its kind, callable,
+    Buildable type, arguments, tags and references (so sharing is identical too). -/
+theorem C12_straight_line_roundtrip_partial (h : Heap) (wf : h.WellFormed)
+    (hd : ∀ o ∈ h, o.defaults = []) (root : GVal) (hr : ∀ j, root = .ref j → j < h.length) :
+    (straightLine h root).run = some (root, h) := by
+  obtain ⟨env, hrun, hl⟩ := runAssigns_straight h [] [] (by intro j hj; simp at hj)
+    (by intro i o ho c hc j hj; exact wf i o (by simpa using ho) c hc j hj) hd
+  unfold CProg.run straightLine
+  simp only [List.length_nil, List.nil_append] at hrun hl
+  simp only [hrun]
+  cases root with
+  | atom t => simp [CExpr.eval]
+  | ref j => simp [CExpr.eval, hl j (hr j rfl)]
+
+/-- Executing any expression never touches an existing object. -/
+theorem C12_execution_only_allocates (e : CExpr) (env : CEnv) (h : Heap) (v : GVal) (h' : Heap)
+    (he : e.eval env h = some (v, h')) (i : Nat) (hi : i < h.length) : h'[i]? = h[i]? := by
+  obtain ⟨t, rfl⟩ := CExpr.eval_prefix e env h v h' he
+  simp [List.getElem?_append_left hi]
+
+/-- A constructor expression yields a new object, different from every existing one ... -/
+theorem C12_constructor_is_fresh (kind : NKind) (ty bk : String) (sig : Sig)
+    (ch : List (PElem × CExpr)) (tags : List (Key × List Nat)) (env : CEnv) (h : Heap) (v : GVal)
+    (h' : Heap) (he : (CExpr.node kind ty bk sig ch tags).eval env h = some (v, h')) :
+    ∃ n, v = .ref n ∧ h.length ≤ n ∧ h'.length = n + 1 ∧
+      ∃ o, h'[n]? = some o ∧ o.kind = kind ∧ o.ty = ty ∧ o.bk = bk ∧ o.tags = tags ∧
+        o.children.map (·.1) = ch.map (·.1) := by
+  simp only [CExpr.eval] at he
+  split at he
+  · cases he
+  · rename_i vals h1 hc
+    simp only [Option.some.injEq, Prod.mk.injEq] at he
+    obtain ⟨rfl, rfl⟩ := he
+    have hp := (CExpr.evalCh_prefix ch env h vals h1 hc).length_le
+    refine ⟨h1.length, rfl, hp, by simp,
+      { kind := kind, ty := ty, bk := bk, sig := sig, children := vals, tags := tags },
+      by simp, rfl, rfl, rfl, rfl, ?_⟩
+    -- the keys of the evaluated children are the keys written in the program
+    clear hp
+    induction ch generalizing h vals h1 with
+    | nil => simp [CExpr.evalCh] at hc; simp [hc.1]
+    | cons c cs ih =>
+      obtain ⟨pe, e⟩ := c
+      simp only [CExpr.evalCh] at hc
+      split at hc
+      · cases hc
+      · rename_i v1 h2 _
+        split at hc
+        · cases hc
+        · rename_i vs h3 hc'
+          simp only [Option.some.injEq, Prod.mk.injEq] at hc
+          obtain ⟨rfl, rfl⟩ := hc
+          simp [ih _ _ _ hc']
+
+/-- ... while a variable yields the very object it was bound to, every time, and allocates
+    nothing: two occurrences of a variable are two references to one object. -/
+theorem C12_variable_shares (x : Nat) (env : CEnv) (h : Heap) (v : GVal) (hx : env.lookup x = some v) :
+    (CExpr.var x).eval env h = some (v, h) := by
+  simp [CExpr.eval, hx]
+
+/-! ## Non-vacuity -/
+
+private def g : Heap :=
+  [ { kind := .cfg, ty := "f", bk := "Config", children := [(.attr "x", .atom "1")], tags := [(.name "x", [2])] },
+    { kind := .list, children := [(.index 0, .ref 0), (.index 1, .ref 0)] },
+    { kind := .cfg, ty := "g", bk := "Partial", children := [(.attr "a", .ref 1), (.attr "b", .ref 0)] } ]
+
+example : g.WellFormed := Heap.wellFormed_of_B g (by decide)
+example : ((straightLine g (.ref 2)).run).map (fun r => (r.1, r.2.length)) = some (.ref 2, 3) := by decide
+
 end Fiddle
